@@ -18,6 +18,22 @@ TEXT = {
   "note": "Trusted: Coq kernel, extraction, driver, harness. The Go runtime, net and the ipv4/ipv6 control message code are not modelled.",
   "technique": "Coq proof (invariants of the parser state machine, fuel sufficiency, structural recursion) + differential correspondence check with spin/crash watchdog",
  },
+ "C10": {
+  "text": "Proved in Coq (Properties/C10.v) for all forwarder lists and names: exactly one upstream receives each query; it is the first entry in "
+          "order whose domain is empty or equals the name or is followed by it after a '.' (case-insensitively), else the appended default; letter "
+          "case never changes the decision. Tie: real config.Forwarders built with Set, each entry a real resolver.DNS with its own UDP server; the "
+          "server that saw each name is compared with the extracted model and with the extracted label-list spec (spec_get).",
+  "note": "Trusted: Coq kernel, extraction, driver, harness UDP servers. The equivalence of the string-suffix rule with the label-suffix reading is checked per case by spec_get, not proved in general. Defect F8 (case-sensitive match) fixed in /repo.",
+  "technique": "Coq proof over the selection function + differential correspondence check with real UDP upstreams",
+ },
+ "C11": {
+  "text": "Proved in Coq (Properties/C11.v) for all profile lists and clients: Profiles.Get equals 'first conditional matching entry, else the last "
+          "unconditional entry, else none'; no entry before a matching conditional one can shadow it; the URL derived from the id is injective and "
+          "never empty. Tie: real config.Profiles built with Set (incl. interface conditions on real interfaces in a private netns) queried with Get, "
+          "compared with the extracted model and spec.",
+  "note": "Trusted: Coq kernel, extraction, driver, harness. ParseCIDR/ParseMAC/InterfaceByName results are passed to the model as data. URL/ctx wiring in run.go is exercised by the C06 engines.",
+  "technique": "Coq proof (induction over the list) + differential correspondence check",
+ },
  "C13": {
   "text": "Proved in Coq (Properties/C13.v): nutterECSOption keeps the payload length, changes no byte outside the rewritten option, turns an option "
           "that lies inside the payload into code 0xFFFF with all-zero data, is memory-safe for every offset, and the option loop touches only "
